@@ -99,7 +99,7 @@ def _restore(g, to):
 def mapping(names, log, state):
     import multiprocessing
     import multiprocessing.pool
-    m = [(multiprocessing.Pool, Pool)]
+    m = [(multiprocessing.Pool, Pool), (multiprocessing.pool.Pool, Pool)]
     if state is not None:
         state.path_hooks.append(lambda: setattr(Pool, "created", 0))
     return m
